@@ -29,7 +29,19 @@ pub enum RcOp
     Unparent(u8),
     /// hand the listed signal slots to worker threads: threads[i] = [(slot, yields before dropping)]
     Threads(Vec<Vec<(u8, u8)>>),
+    /// fault injection: the clone is dropped by the unwinding of a panic that is caught on the main thread
+    PanicDrop(u8),
+    /// fault injection: like `Threads`, but the threads named by the mask panic after dropping half of their handles;
+    /// the rest is dropped by the unwinding of the dying thread
+    ThreadsFault(Vec<Vec<(u8, u8)>>, u8),
+    /// move the clone into a component of entity `.1`: it is dropped when that entity is despawned (by hand, as a
+    /// descendant, or by a collection - in which case the drop happens in the middle of a collection pass)
+    StoreOn(u8, u8),
 }
+
+/// Component holding signal clones (what `EntityReactors` does with reactor handles).
+#[derive(Component, Default)]
+struct Holder(Vec<AutoDespawnSignal>);
 
 #[derive(Debug, Clone, PartialEq, Eq, Hash, Serialize, Deserialize, Default)]
 pub struct RcCase
@@ -38,6 +50,7 @@ pub struct RcCase
     pub ops: Vec<RcOp>,
 }
 
+#[derive(Clone)]
 struct Model
 {
     alive: Vec<bool>,
@@ -48,6 +61,11 @@ struct Model
     doomed: Vec<bool>,
     /// signal slot -> entity index (None: dropped)
     sigs: Vec<Option<usize>>,
+    /// signal slots stored in a component of the entity
+    held: Vec<Vec<usize>>,
+    /// lost its last clone in the middle of a collection pass (a holder was collected): that pass or the next one may
+    /// collect it - both are "the first collection after"; must be gone after the next pass
+    either: Vec<bool>,
 }
 
 impl Model
@@ -65,18 +83,73 @@ impl Model
         out
     }
 
-    fn kill_recursive(&mut self, e: usize)
+    /// Returns the entities that lost their last clone because a holder died.
+    fn kill_recursive(&mut self, e: usize) -> Vec<usize>
     {
-        if !self.alive[e] { return; }
-        for d in self.descendants(e) { self.alive[d] = false; self.parent[d] = None; }
+        let mut cascaded = Vec::new();
+        if !self.alive[e] { return cascaded; }
+        for d in self.descendants(e)
+        {
+            self.alive[d] = false;
+            self.parent[d] = None;
+            for slot in std::mem::take(&mut self.held[d])
+            {
+                if let Some(x) = self.sigs[slot].take()
+                {
+                    self.count[x] -= 1;
+                    if self.count[x] == 0 { self.doomed[x] = true; cascaded.push(x); }
+                }
+            }
+        }
+        cascaded
     }
 
+    /// One collection pass. Entities doomed before the pass die; entities doomed *during* the pass (cascade) become
+    /// `either` (this pass or the next one may take them, and whatever they hold cascades the same way).
     fn gc(&mut self)
     {
-        for e in 0..self.alive.len()
+        let before: Vec<usize> = (0..self.alive.len()).filter(|e| self.doomed[*e]).collect();
+        // entities left undecided by the previous pass must be gone now; their death (and its cascade) may have
+        // happened in either pass, so what they doom is again undecided
+        let mut work: Vec<(usize, bool)> = before.iter().map(|e| (*e, false)).collect();
+        for e in 0..self.alive.len() { self.either[e] = false; }
+        while let Some((e, _)) = work.pop()
         {
-            if self.doomed[e] { self.doomed[e] = false; self.kill_recursive(e); }
+            self.doomed[e] = false;
+            for x in self.kill_recursive(e)
+            {
+                // x lost its last clone inside this pass
+                self.either[x] = true;
+            }
         }
+    }
+
+    /// Adopt what the real collection did with the undecided entities (either answer is acceptable for them).
+    fn settle_either(&mut self, really_alive: &dyn Fn(usize) -> bool)
+    {
+        loop
+        {
+            let mut progress = false;
+            for e in 0..self.alive.len()
+            {
+                if self.either[e] && self.alive[e] && self.doomed[e] && !really_alive(e)
+                {
+                    self.doomed[e] = false;
+                    self.either[e] = false;
+                    for x in self.kill_recursive(e) { self.either[x] = true; }
+                    progress = true;
+                }
+            }
+            if !progress { break; }
+        }
+        // still alive: stays doomed, must be taken by the next pass
+        for e in 0..self.alive.len() { self.either[e] = false; }
+    }
+
+    /// Collection passes until nothing is left to collect (what must be gone at the latest).
+    fn gc_full(&mut self)
+    {
+        while self.doomed.iter().any(|d| *d) { self.gc(); }
     }
 
     fn drop_sig(&mut self, slot: usize)
@@ -101,7 +174,7 @@ fn run_inner(case: &RcCase, out: &mut RcOutcome)
     app.setup_auto_despawn();
     let n = case.n_entities.max(1) as usize;
     let mut ents: Vec<Entity> = (0..n).map(|_| app.world_mut().spawn_empty().id()).collect();
-    let mut m = Model{ alive: vec![true; n], parent: vec![None; n], prepared: vec![false; n], count: vec![0; n], doomed: vec![false; n], sigs: Vec::new() };
+    let mut m = Model{ alive: vec![true; n], parent: vec![None; n], prepared: vec![false; n], count: vec![0; n], doomed: vec![false; n], sigs: Vec::new(), held: vec![Vec::new(); n], either: vec![false; n] };
     let mut sigs: Vec<Option<AutoDespawnSignal>> = Vec::new();
     let mut drops_out_of_order = 0u32;
     let mut gcs = 0u32;
@@ -148,17 +221,22 @@ fn run_inner(case: &RcCase, out: &mut RcOutcome)
             {
                 garbage_collect_entities(app.world_mut());
                 m.gc();
+                m.settle_either(&|e| app.world().get_entity(ents[e]).is_ok());
                 gcs += 1;
-                // idempotent
-                let before: Vec<bool> = ents.iter().map(|e| app.world().get_entity(*e).is_ok()).collect();
-                garbage_collect_entities(app.world_mut());
-                let after: Vec<bool> = ents.iter().map(|e| app.world().get_entity(*e).is_ok()).collect();
-                if before != after { out.violations.push(format!("op {i}: a second garbage collection changed the world")); }
+                // idempotent (unless a pass legitimately left cascaded entities to the next one)
+                if !m.doomed.iter().any(|d| *d)
+                {
+                    let before: Vec<bool> = ents.iter().map(|e| app.world().get_entity(*e).is_ok()).collect();
+                    garbage_collect_entities(app.world_mut());
+                    let after: Vec<bool> = ents.iter().map(|e| app.world().get_entity(*e).is_ok()).collect();
+                    if before != after { out.violations.push(format!("op {i}: a second garbage collection changed the world")); }
+                }
             }
             RcOp::AppUpdate =>
             {
                 app.update();
                 m.gc();
+                m.settle_either(&|e| app.world().get_entity(ents[e]).is_ok());
                 gcs += 1;
                 hit(out, "C10:collected_by_schedule");
             }
@@ -167,7 +245,7 @@ fn run_inner(case: &RcCase, out: &mut RcOutcome)
                 let e = *e as usize % ents.len();
                 if let Ok(em) = app.world_mut().get_entity_mut(ents[e]) { em.despawn_recursive(); }
                 if m.doomed[e] || m.count[e] > 0 { hit(out, "C10:manual_despawn_of_counted_entity"); }
-                m.kill_recursive(e);
+                let _ = m.kill_recursive(e);
             }
             RcOp::SpawnChild(p) =>
             {
@@ -181,6 +259,8 @@ fn run_inner(case: &RcCase, out: &mut RcOutcome)
                 m.prepared.push(false);
                 m.count.push(0);
                 m.doomed.push(false);
+                m.held.push(Vec::new());
+                m.either.push(false);
                 hit(out, "C10:child");
             }
             RcOp::Reparent(c, p) =>
@@ -198,8 +278,35 @@ fn run_inner(case: &RcCase, out: &mut RcOutcome)
                 app.world_mut().entity_mut(ents[c]).remove_parent();
                 m.parent[c] = None;
             }
-            RcOp::Threads(plan) =>
+            RcOp::PanicDrop(s) =>
             {
+                if sigs.is_empty() { continue; }
+                let s = *s as usize % sigs.len();
+                let Some(sig) = sigs[s].take() else { continue };
+                if sigs[s + 1..].iter().any(|x| x.is_some()) { drops_out_of_order += 1; }
+                let r = std::panic::catch_unwind(std::panic::AssertUnwindSafe(move || {
+                    let _held = sig;
+                    panic!("injected fault: the holder of a signal clone panics");
+                }));
+                if r.is_ok() { out.violations.push(format!("op {i}: injected panic did not unwind")); }
+                m.drop_sig(s);
+                hit(out, "C10:dropped_by_unwinding");
+            }
+            RcOp::StoreOn(s, e) =>
+            {
+                if sigs.is_empty() { continue; }
+                let (s, e) = (*s as usize % sigs.len(), *e as usize % ents.len());
+                if !m.alive[e] || sigs[s].is_none() { continue; }
+                let sig = sigs[s].take().unwrap();
+                let mut em = app.world_mut().entity_mut(ents[e]);
+                if !em.contains::<Holder>() { em.insert(Holder::default()); }
+                em.get_mut::<Holder>().unwrap().0.push(sig);
+                m.held[e].push(s);
+                hit(out, "C10:clone_held_by_entity");
+            }
+            RcOp::Threads(_) | RcOp::ThreadsFault(..) =>
+            {
+                let (plan, fault_mask) = match op { RcOp::Threads(p) => (p, 0u8), RcOp::ThreadsFault(p, k) => (p, *k), _ => unreachable!() };
                 if sigs.is_empty() { continue; }
                 // move the named handles to the threads
                 let mut moved: Vec<Vec<(usize, AutoDespawnSignal, u8)>> = Vec::new();
@@ -215,12 +322,24 @@ fn run_inner(case: &RcCase, out: &mut RcOutcome)
                 }
                 let moved_slots: Vec<usize> = moved.iter().flat_map(|t| t.iter().map(|x| x.0)).collect();
                 if moved.iter().filter(|t| !t.is_empty()).count() >= 2 { hit(out, "C10:two_threads"); }
-                let handles: Vec<std::thread::JoinHandle<()>> = moved.into_iter().map(|mine| {
+                if fault_mask != 0 && moved.iter().enumerate().any(|(t, mine)| !mine.is_empty() && (fault_mask >> (t % 8)) & 1 == 1) { hit(out, "C10:thread_dies_holding_clones"); }
+                let handles: Vec<std::thread::JoinHandle<()>> = moved.into_iter().enumerate().map(|(t, mine)| {
+                    let dies = (fault_mask >> (t % 8)) & 1 == 1;
                     std::thread::spawn(move || {
-                        for (_, sig, y) in mine
+                        let die_at = mine.len() / 2;
+                        let mut mine: std::collections::VecDeque<_> = mine.into();
+                        let mut k = 0;
+                        while let Some((_, sig, y)) = mine.pop_front()
                         {
                             for _ in 0..y { std::thread::yield_now(); }
+                            if dies && k == die_at
+                            {
+                                // the rest (including `sig`) is dropped by the unwinding of this thread
+                                let _held = sig;
+                                panic!("injected fault: worker thread dies holding signal clones");
+                            }
                             drop(sig);
+                            k += 1;
                         }
                     })
                 }).collect();
@@ -228,10 +347,9 @@ fn run_inner(case: &RcCase, out: &mut RcOutcome)
                 // (whatever survives "all moved handles dropped + one collection" must survive every collection
                 //  during the phase: collections in between can only remove a subset of that)
                 let retained: Vec<usize> = {
-                    let mut fin = Model{ alive: m.alive.clone(), parent: m.parent.clone(), prepared: m.prepared.clone(),
-                        count: m.count.clone(), doomed: m.doomed.clone(), sigs: m.sigs.clone() };
+                    let mut fin = m.clone();
                     for s in moved_slots.iter() { fin.drop_sig(*s); }
-                    fin.gc();
+                    fin.gc_full();
                     (0..ents.len()).filter(|e| fin.alive[*e]).collect()
                 };
                 let mut rounds = 0;
@@ -255,6 +373,7 @@ fn run_inner(case: &RcCase, out: &mut RcOutcome)
                 for s in moved_slots { m.drop_sig(s); }
                 garbage_collect_entities(app.world_mut());
                 m.gc();
+                m.settle_either(&|e| app.world().get_entity(ents[e]).is_ok());
                 gcs += 1;
             }
         }
@@ -297,7 +416,7 @@ pub fn decode(bytes: &[u8], max_ops: usize, threads: bool) -> RcCase
     let n_ops = below(byte(&mut u), max_ops + 1);
     for _ in 0..n_ops
     {
-        let k = below(byte(&mut u), 20);
+        let k = below(byte(&mut u), 27);
         let a = byte(&mut u) % 12;
         let b = byte(&mut u) % 12;
         let op = match k
@@ -311,10 +430,13 @@ pub fn decode(bytes: &[u8], max_ops: usize, threads: bool) -> RcCase
             15 | 16 => RcOp::SpawnChild(a),
             17 => RcOp::Reparent(a, b),
             18 => RcOp::Unparent(a),
+            20 => RcOp::PanicDrop(a),
+            21 | 22 | 23 => RcOp::StoreOn(a, b),
             _ =>
             {
                 if !threads { RcOp::Gc } else
                 {
+                    let fault = k == 24 || k == 26;
                     let n_threads = 2 + below(byte(&mut u), 4);
                     let mut plan = Vec::new();
                     for _ in 0..n_threads
@@ -324,7 +446,7 @@ pub fn decode(bytes: &[u8], max_ops: usize, threads: bool) -> RcCase
                         for _ in 0..n { let s = byte(&mut u) % 16; let y = byte(&mut u) % 8; t.push((s, y)); }
                         plan.push(t);
                     }
-                    RcOp::Threads(plan)
+                    if fault { RcOp::ThreadsFault(plan, 1 + byte(&mut u) % 15) } else { RcOp::Threads(plan) }
                 }
             }
         };
